@@ -117,7 +117,8 @@ class Case:
       except ValueError:
         continue
       for p, v in b.items():
-        got.append([oid, p, '@' if isinstance(v, config.ConfigurableReference) else v])
+        got.append([oid, p, '@' if isinstance(v, config.ConfigurableReference) else
+                    ('unk' if isinstance(v, config._UnknownConfigurableReference) else v)])
     return sorted(got)
 
   def behaviour(self):
@@ -141,8 +142,12 @@ class Case:
   def run(self, case):
     gin = self.gin
     obs = {}
+    sk = case.get('skip') or dict(mode='false', names=[])
+    skip = {'false': False, 'true': True}.get(sk['mode'])
+    if skip is None:
+      skip = ['.'.join(self.name(c) for c in n) for n in sk['names']]
     try:
-      gin.parse_config(self.text(case['doc']))
+      gin.parse_config(self.text(case['doc']), skip_unknown=skip)
       obs['status'] = 'ok'
     except BaseException as e:  # pylint: disable=broad-except
       obs['status'] = ('ImportError' if isinstance(e, ImportError) else type(e).__name__)
@@ -173,7 +178,7 @@ def check(case):
     want = sorted([b['obj'], b['param'], b['val']] for b in case['cfg'])
     if want != obs['cfg']:
       return ('configured-objects', want, obs['cfg'])
-    if case['status'] != 'ok':
+    if case['status'] != 'ok' or any(v == 'unk' for _, _, v in want):
       return None
     # references keep working (also after a class was re-registered because one of its methods was configured)
     wb = expected_behaviour(want)
